@@ -955,7 +955,14 @@ func InvariantCalls(f *Func) []*ast.CallExpr {
 			if fn == nil || fn.Pkg() == nil || !strings.HasPrefix(fn.Pkg().Path(), Mod) {
 				continue
 			}
-			if sig := fn.Type().(*types.Signature); sig.Recv() != nil {
+			sig, isSig := fn.Type().Underlying().(*types.Signature)
+			if !isSig {
+				continue
+			}
+			if _, isFunc := fn.(*types.Func); !isFunc {
+				continue // a function-typed variable or parameter (walker(set)): the callee is not known here
+			}
+			if sig.Recv() != nil {
 				continue // methods on accumulators (verr.Add, buf.Write) are the loop's output channel
 			}
 			uses := false
@@ -1430,6 +1437,24 @@ func LazyInitExtras(f *Func) []LazyInitExtra {
 			return true
 		}
 		for _, st := range is.Body.List[1:] {
+			// a field of the fresh value filled from a parameter of the function: the caller's value is only
+			// recorded when nothing had been recorded before
+			if as, ok := st.(*ast.AssignStmt); ok && len(as.Lhs) == 1 && len(as.Rhs) == 1 && as.Tok == token.ASSIGN {
+				if se, ok := ast.Unparen(as.Lhs[0]).(*ast.SelectorExpr); ok && SameExpr(info, se.X, cmp.X) {
+					fromParam := false
+					ast.Inspect(as.Rhs[0], func(m ast.Node) bool {
+						if id, ok := m.(*ast.Ident); ok {
+							if v, ok := info.Uses[id].(*types.Var); ok && isParamOf(f, v) {
+								fromParam = true
+							}
+						}
+						return true
+					})
+					if fromParam {
+						out = append(out, LazyInitExtra{is, &ast.CallExpr{Fun: as.Lhs[0], Args: []ast.Expr{as.Rhs[0]}, Lparen: as.Pos(), Rparen: as.End()}})
+					}
+				}
+			}
 			es, ok := st.(*ast.ExprStmt)
 			if !ok {
 				continue
@@ -2840,4 +2865,20 @@ func PositionalMismatches(f *Func) []PositionalMismatch {
 		return true
 	})
 	return out
+}
+
+func isParamOf(f *Func, v *types.Var) bool {
+	if f.Obj == nil {
+		return false
+	}
+	sig, ok := f.Obj.Type().(*types.Signature)
+	if !ok {
+		return false
+	}
+	for i := 0; i < sig.Params().Len(); i++ {
+		if sig.Params().At(i) == v {
+			return true
+		}
+	}
+	return false
 }
